@@ -304,8 +304,8 @@ func (a *c19g) appliers(pk *packages.Package) {
 		c.Undecided("C19-G3", "accessors", 0, "the explicit/derived accessors were not identified (see C19-G2); the executors cannot be decided")
 		return
 	}
-	loopFns := map[*types.Func]*c19gLoop{}   // loop functions already decided
-	loopParam := map[*types.Func][2]int{}    // (exprs param index, acc param index)
+	loopFns := map[*types.Func]*c19gLoop{} // loop functions already decided
+	loopParam := map[*types.Func][2]int{}  // (exprs param index, acc param index)
 	loopReported := map[*types.Func]bool{}
 	nAppliers := 0
 	a.c.P.EachFuncDecl([]string{dmlRelOfPkg(pk.PkgPath)}, func(_ *packages.Package, fd *ast.FuncDecl) {
